@@ -352,6 +352,93 @@ Proof.
     replace (N.to_nat (ci - (prev + 1))) with k by lia. symmetry. apply nth_error_skipn_cons. exact NE.
 Qed.
 
+
+(* ---------- what an accepted append guarantees (the MsgAppResp promise) ---------- *)
+
+Lemma nth_error_skipn' {A} (l : list A) : forall p c, nth_error (skipn p l) c = nth_error l (p + c).
+Proof.
+  induction l as [|x l IH]; intros p c.
+  - rewrite skipn_nil. destruct c, p; reflexivity.
+  - destruct p; cbn; [reflexivity|apply IH].
+Qed.
+
+(* after an accepted maybe-append the log holds every entry of the message at its index with its
+   term, and reaches at least to the last of them: what the MsgAppResp index promises *)
+
+Lemma a_match_truncate_below a es e0 rest i t :
+  a_wf a -> es = e0 :: rest -> a_base a < e_index e0 -> i < e_index e0 ->
+  a_match a i t = true -> a_match (a_truncate_append a es) i t = true.
+Proof.
+  intros W E B LT M. subst es. unfold a_truncate_append. unfold a_match, a_term, a_at in *.
+  cbn [a_base a_base_term a_ents].
+  destruct (N.eqb_spec i (a_base a)); [exact M|].
+  destruct (N.leb_spec i (a_base a)); [exact M|].
+  destruct (nth_error (a_ents a) (N.to_nat (i - a_base a - 1))) as [e|] eqn:NE; [|discriminate].
+  assert (L1 : (N.to_nat (i - a_base a - 1) < length (a_ents a))%nat) by (apply nth_error_Some; congruence).
+  rewrite nth_error_app1 by (rewrite firstn_length; lia).
+  rewrite firstn_nth_error by lia. rewrite NE. exact M.
+Qed.
+
+Lemma a_match_appended a es e0 rest k e :
+  a_wf a -> es = e0 :: rest -> contig (e_index e0) es -> a_base a < e_index e0 <= a_last a + 1 ->
+  nth_error es k = Some e -> a_match (a_truncate_append a es) (e_index e) (e_term e) = true.
+Proof.
+  intros W E C R NK. pose proof (contig_nth _ _ _ _ C NK) as EI. subst es.
+  unfold a_truncate_append, a_match, a_term, a_at. cbn [a_base a_base_term a_ents].
+  destruct (N.eqb_spec (e_index e) (a_base a)); [lia|].
+  destruct (N.leb_spec (e_index e) (a_base a)); [lia|].
+  assert (FL : length (firstn (N.to_nat (e_index e0 - a_base a - 1)) (a_ents a)) = N.to_nat (e_index e0 - a_base a - 1)).
+  { rewrite firstn_length. unfold a_last, nlen in R. lia. }
+  rewrite nth_error_app2 by (rewrite FL; lia). rewrite FL.
+  replace (N.to_nat (e_index e - a_base a - 1) - N.to_nat (e_index e0 - a_base a - 1))%nat with k by lia.
+  rewrite NK. apply N.eqb_refl.
+Qed.
+
+Theorem a_maybe_append_holds a prev pt ents a' :
+  a_wf a -> contig (prev + 1) ents -> a_base a <= prev ->
+  a_maybe_append a prev pt ents = Some a' ->
+  (forall k e, nth_error ents k = Some e -> a_match a' (e_index e) (e_term e) = true) /\
+  prev + nlen ents <= a_last a' /\ a_match a' prev pt = true.
+Proof.
+  intros W C BP H. unfold a_maybe_append in H.
+  destruct (a_match a prev pt) eqn:PM; [|discriminate].
+  destruct (a_find_conflict_spec a ents (prev + 1) C ltac:(lia)) as [[Z ALL]|(k & e & NE & F & EI & MF & BEF)].
+  - rewrite Z in H. cbn in H. inversion H; subst a'. split; [exact ALL|]. split; [|exact PM].
+    destruct ents as [|x xs] eqn:EE.
+    + unfold a_match in PM. destruct (a_term a prev) eqn:AT; [|discriminate]. pose proof (a_term_some _ _ _ AT). cbn. lia.
+    + rewrite <- EE in *. assert (LN : (length ents - 1 < length ents)%nat) by (rewrite EE; cbn; lia).
+      destruct (nth_error ents (length ents - 1)) as [el|] eqn:NL; [|apply nth_error_None in NL; lia].
+      pose proof (ALL _ _ NL) as ML. unfold a_match in ML.
+      destruct (a_term a (e_index el)) eqn:AT; [|discriminate]. pose proof (a_term_some _ _ _ AT).
+      pose proof (contig_nth _ _ _ _ C NL). unfold nlen. lia.
+  - rewrite F in H. destruct (N.eqb_spec (prev + 1 + N.of_nat k) 0); [lia|].
+    replace (N.to_nat (prev + 1 + N.of_nat k - (prev + 1))) with k in H by lia.
+    rewrite (nth_error_skipn_cons _ _ _ NE) in H.
+    assert (EA : a' = a_truncate_append a (e :: skipn (S k) ents)) by congruence. clear H. rewrite EA. clear EA.
+    assert (CK : contig (e_index e) (e :: skipn (S k) ents)).
+    { rewrite <- (nth_error_skipn_cons _ _ _ NE). rewrite EI. apply contig_skipn. exact C. }
+    assert (R : a_base a < e_index e <= a_last a + 1).
+    { split; [lia|]. destruct k as [|k'].
+      - unfold a_match in PM. destruct (a_term a prev) eqn:AT; [|discriminate]. pose proof (a_term_some _ _ _ AT). lia.
+      - destruct (nth_error ents k') as [e'|] eqn:NK.
+        + pose proof (BEF k' e' ltac:(lia) NK) as MB. unfold a_match in MB.
+          destruct (a_term a (e_index e')) eqn:AT; [|discriminate].
+          pose proof (a_term_some _ _ _ AT). pose proof (contig_nth _ _ _ _ C NK). lia.
+        + apply nth_error_None in NK. apply nth_error_Some_lt' in NE. lia. }
+    split; [|split].
+    + intros j ej NJ. destruct (Nat.lt_ge_cases j k) as [LT|GE].
+      * pose proof (BEF j ej LT NJ) as MB. pose proof (contig_nth _ _ _ _ C NJ).
+        apply (a_match_truncate_below a _ e (skipn (S k) ents)); try assumption; try reflexivity; lia.
+      * apply (a_match_appended a _ e (skipn (S k) ents) (j - k)); try assumption; try reflexivity.
+        rewrite <- (nth_error_skipn_cons _ _ _ NE). rewrite nth_error_skipn'. replace (k + (j - k))%nat with j by lia. exact NJ.
+    + assert (FL : length (firstn (N.to_nat (e_index e - a_base a - 1)) (a_ents a)) = N.to_nat (e_index e - a_base a - 1)).
+      { rewrite firstn_length. unfold a_last, nlen in R. lia. }
+      unfold a_truncate_append, a_last. cbn [a_base a_ents]. unfold nlen. rewrite app_length, FL.
+      cbn [length]. rewrite skipn_length. apply nth_error_Some_lt' in NE. lia.
+    + apply (a_match_truncate_below a _ e (skipn (S k) ents)); try assumption; try reflexivity; lia.
+Qed.
+
+
 (* ---------- the abstract maybeAppend is the FollowerAppend rule of Spec/LogMatching.v ---------- *)
 
 From RaftV Require LogMatching.
@@ -566,3 +653,4 @@ Proof.
 Qed.
 
 Print Assumptions handle_append_entries_view.
+Print Assumptions a_maybe_append_holds.
